@@ -10,6 +10,8 @@ streaming writer x depth x gulp, with stale junk at the output path beforehand:
   * after every call the disk holds header ++ the blocks handed to cwrite so far (so it only grows and nothing is rewritten);
   * between two blocks of the read plan every output receives exactly one cwrite (one block per gulp, in loop order);
   * on normal return the file equals the last observation (complete without relying on close);
+  * extract_bands / extract_chans with batch sizes 1, 2, 3, 5 and enough outputs for several batches: every output path is watched
+    over the WHOLE call (also after it was closed): each state extends the previous one, header written once;
   * every byte-length truncation L >= |hdr| of the final file opens with FilReader, reports floor(8(L-|hdr|)/(nbits*nchans))
     samples and read_block(0, that many) equals the first that many samples of the full read; truncations inside the header raise.
 
@@ -199,11 +201,18 @@ def run(R: vlib.Run):
                 continue
             evs = [ev[i] for i in idx]
             kinds = "".join(e[0] for e in evs)
-            key = (site, case["nbits"], case.get("gulp"), case.get("p"), oi)
+            key = (site, case["nbits"], case.get("gulp"), case.get("p"), oi)   # p carries the batch size
             R.case(key, nontrivial=len(evs) > 2 or full_sweep, regime=("died:" if exc else "") + site,
                    sample=dict(c, events=kinds, sizes=[len(e[3]) for e in evs]) if case.get("gulp") == 3 and case["nbits"] == 8 and oi == 0 else None)
             with open(o, "rb") as f:
                 final = f.read()
+            # over the WHOLE call (also across a close and a later re-open of the same path): every observed state of the
+            # path extends the previous one -- the size only grows, nothing already on disk is truncated or rewritten
+            for j in range(1, len(evs)):
+                if not evs[j][3].startswith(evs[j - 1][3]):
+                    R.fail(f"{site}-not-append-only", "a later state of an output path does not extend an earlier one (shrunk, truncated or rewritten during the call)",
+                           dict(c, event=j, events=kinds, sizes=[len(e[3]) for e in evs], shrank=len(evs[j][3]) < len(evs[j - 1][3])))
+                    break
             # header first, exactly, once
             h = evs[0][2]
             if evs[0][0] != "W" or evs[0][3] != h:
@@ -332,6 +341,43 @@ def run(R: vlib.Run):
                         except OSError:
                             pass
                 del fil
+
+        # ---- batching of the multi-output writers: several batches, every output path watched over the whole call ------
+        for nbits, nchb in ((8, 16), (32, 8)):
+            x = nprng.integers(0, 1 << min(nbits, 8), (N, nchb))
+            inp = filutil.write_fil(os.path.join(d, f"inb{nbits}.fil"), x, nbits, fch1=400.0, foff=-80.0 / nchb, tsamp=0.001)
+            base = os.path.join(d, "b")
+            nsub = nchb // 2
+            chans = list(range(0, nchb, 2))[:7] + [nchb - 1]
+            for bsz in (1, 2, 3, 5):
+                for gulp in ((3, N + 3) if R.tier == "quick" else (1, 3, N, N + 3)):
+                    fil = FilReader(inp)
+                    jobs = [("extract_bands", f"{nsub} bands;batch{bsz}", [f"{base}_sub{i:02d}.fil" for i in range(nsub)],
+                             lambda: fil.extract_bands(0, nchb, 2, base, batch_size=bsz, gulp=gulp, quiet=True)),
+                            ("extract_chans", f"{len(chans)} chans;batch{bsz}", [f"{base}_chan{c_:04d}.tim" for c_ in chans],
+                             lambda: fil.extract_chans(chans, base, batch_size=bsz, gulp=gulp, quiet=True))]
+                    for site, p, outs, fn in jobs:
+                        case = {"site": site, "nbits": nbits, "nchans": nchb, "N": N, "gulp": gulp, "p": p, "batch_size": bsz}
+                        stale(outs)
+                        exc = None
+                        with Tap(os.path.join(d, "payload.bin")) as tap:
+                            try:
+                                ret = fn()
+                            except Exception as e:  # noqa: BLE001
+                                exc, ret = f"{type(e).__name__}: {str(e)[:100]}", None
+                            ev = list(tap.ev)
+                        if exc is None and sorted(ret) != sorted(outs):
+                            R.fail(f"{site}-no-output", "the list of files returned differs from the outputs requested", dict(case, returned=[os.path.basename(r) for r in ret]))
+                        touched = sorted(set(e[1] for e in ev if e[0] in "WC") - set(outs))
+                        if touched:
+                            R.fail(f"{site}-no-output", "a path that is not one of the outputs was written", dict(case, paths=[os.path.basename(t) for t in touched]))
+                        judge(site, case, ev, outs, exc, full_sweep=(bsz == 2 and gulp == 3 and nbits == 8))
+                        for o in outs:
+                            try:
+                                os.remove(o)
+                            except OSError:
+                                pass
+                    del fil
 
         # ---- correspondence: the executable model on the same inputs ------------------------------------------------
         head = ["From Coq Require Import ZArith List Bool.", "Require Import SPP.Base.Rt SPP.Gen.C20Sites SPP.Model.Stream SPP.Model.C20_Trace.",
